@@ -77,7 +77,7 @@ def body_stepsize(H, case):
 
     dev = S.symbolic_device(H, "bar0", case.seed, symbolic_mesh=False)
     ns, ne = len(dev.mesh.sites), len(dev.mesh.edge_mesh.edges)
-    dt_init = H.real("dt_init" + sfx, lo=1e-3, hi=1.0)
+    dt_init = H.real("dt_init", lo=1e-3, hi=1.0)
     mult = H.real("mult", lo=0.1, hi=0.9)
     opts = S.make_options(dt_init=dt_init, dt_max=1.0, adaptive=True, adaptive_window=1, max_solve_retries=case.R, adaptive_time_step_multiplier=mult)
     solver = S.make_solver(H, dev, opts, validate=False)
